@@ -60,6 +60,7 @@ def configs(tier):
     for ms in (0, 3):
         cfgs.append({"name": f"n4-max{ms}-gapped-labels", "n": 4, "max_size": ms, "maxe": 6, "tier": tier, "gap": True})
     cfgs.append({"name": "n5-max0-gapped-labels", "n": 5, "max_size": 0, "maxe": 5, "tier": tier, "gap": True})
+    cfgs.append({"name": "n5-max0-unordered-gapped-labels", "n": 5, "max_size": 0, "maxe": 5, "tier": tier, "gap": [0, 7, 1, 2, 3]})
     if not q:
         for ms in (0, 3):
             cfgs.append({"name": f"n6-e7-max{ms}", "n": 6, "max_size": ms, "maxe": 7, "tier": tier})
@@ -136,9 +137,10 @@ def path(ctx, cfg):
     order = cfg.get("order", "asc")
     nodes = list(range(n))
     if cfg.get("gap"):
-        edges = [(3 * a + 2, 3 * b + 2) for a, b in edges]
-        pairs = [(3 * a + 2, 3 * b + 2) for a, b in pairs]
-        nodes = [3 * v + 2 for v in nodes]
+        lab = (lambda v: cfg["gap"][v]) if isinstance(cfg["gap"], list) else (lambda v: 3 * v + 2)
+        edges = [(lab(a), lab(b)) for a, b in edges]
+        pairs = [(lab(a), lab(b)) for a, b in pairs]
+        nodes = [lab(v) for v in nodes]
     if order == "asc":
         G.add_nodes_from(nodes)
         G.add_edges_from(edges)
@@ -176,7 +178,7 @@ def path(ctx, cfg):
         if rec["fn"] == "shuffle":
             order = [ctx.fork_int(p) for p in rec["perm"]]
     desc += f" shuffle={order if order is None or len(order) < 40 else 'identity' if order[0] == 0 else 'reversed'}"
-    same = sorted(out.nodes()) == sorted(nodes) and sorted(map(sorted, out.edges())) == sorted(map(list, edges))
+    same = sorted(out.nodes()) == sorted(nodes) and sorted(map(sorted, out.edges())) == sorted(map(sorted, edges))
     ctx.require(same, "graph-unchanged", f"{desc}: returned graph has nodes {sorted(out.nodes())} edges {sorted(map(sorted, out.edges()))}", twin=(not same) if edges else None)
     labels = {}
     unl = []
